@@ -306,11 +306,17 @@ func c15Run(ch *verifx.Chooser) (obs, bad, sig string, steps int) {
 		s.stateSent = au.Query().Get("state")
 		res := &AuthorizationResult{Code: "the-code", State: s.stateSent}
 		s.stateOK = true
-		switch ch.Free("returned-state", 3) {
+		switch ch.Free("returned-state", 6) {
 		case 1:
 			res.State, s.stateOK = s.stateSent+"x", false
 		case 2:
 			res.State, s.stateOK = s.stateSent[:len(s.stateSent)-1], false
+		case 3:
+			res.State, s.stateOK = "", false // the callback came without a state parameter
+		case 4:
+			res.State, s.stateOK = strings.ToUpper(s.stateSent), strings.ToUpper(s.stateSent) == s.stateSent
+		case 5:
+			res.State, s.stateOK = " "+s.stateSent, false
 		}
 		s.issCase = []string{"absent", "matching", "other"}[ch.Free("returned-iss", 3)]
 		switch s.issCase {
